@@ -265,6 +265,8 @@ def gen_targets(rng, tasks):
 
 
 PATTERNS = ['*', 'g*', 't*', '*:s0', '*:*', 'g1:*', '*1', 'u*', '*x*', 'g?*']
+BRACKET_FORM = {'g*': 'g[0-9]*', 't*': '[t]*', '*:s0': '*:s[0]', '*:*': '*[:]*', 'g1:*': 'g[!0]:*', '*1': '*[!0]', 'u*': '[!gt]*',
+                '*x*': '*[x-z]*', 'g?*': 'g[]0-9]*'}
 
 
 def gen_args(rng, tasks):
@@ -283,6 +285,10 @@ def gen_args(rng, tasks):
         pos, mode = [rng.choice(labels) for _ in range(rng.randint(1, 3))], 'names'
     elif r < 0.83:
         pos, mode = [rng.choice(PATTERNS)], 'glob'
+        # wave 5 (the matcher is Sel.glob, all of fnmatch): for half of the task sets the pattern is written with a
+        # bracket class instead (chosen from the case itself: the random stream of the other cases is unchanged)
+        if pos[0] in BRACKET_FORM and len(''.join(labels)) % 2 == 0:
+            pos, mode = [BRACKET_FORM[pos[0]]], 'glob-bracket-class'
     elif r < 0.95:
         pos, mode = [rng.choice(labels + PATTERNS) for _ in range(rng.randint(2, 3))], 'mixed'
     else:
